@@ -9,6 +9,8 @@ import (
 	"encoding/json"
 	"fmt"
 	"net/url"
+	"os"
+	"path/filepath"
 	"reflect"
 	"strings"
 	"sync"
@@ -18,6 +20,7 @@ import (
 	"github.com/beevik/etree"
 
 	"github.com/crewjam/saml"
+	"github.com/crewjam/saml/samlsp"
 )
 
 // C13: signatures on what the SP emits verify under the certificate in the SP's
@@ -39,6 +42,9 @@ type c13Result struct {
 	Tolerated bool `json:"tolerated_near_miss,omitempty"`
 	// the certificates of the published signing KeyDescriptor, named as the model names them (leaf, ca1, ca2)
 	Published []string `json:"published_signing_certificates,omitempty"`
+	// middleware path: HTTP status of the response, and what differs from the model's choice of binding (drift)
+	Status         int    `json:"http_status,omitempty"`
+	BindingDiffers string `json:"binding_differs,omitempty"`
 }
 
 // c13Message decodes the emitted wire form to the message's root element.
@@ -122,7 +128,11 @@ func c13RunCaseOn(existing *saml.ServiceProvider, v *spemitVec, c *spemitConc) c
 		c13Reconfigure(existing, s)
 		s = existing
 	}
-	return c13Judge(s, v, c, spemitEmit(s, v, c))
+	e := spemitEmit(s, v, c)
+	js, jv, differs := spemitAdoptEmission(s, v, e)
+	res := c13Judge(js, jv, c, e)
+	res.Status, res.BindingDiffers = e.Status, differs
+	return res
 }
 
 // c13Judge judges one emission of the SP s (redirect URL, POST form, SOAP envelope or - binding "element" -
@@ -290,6 +300,17 @@ func c13Judge(s *saml.ServiceProvider, v *spemitVec, c *spemitConc, e *spemitEmi
 	return res
 }
 
+// c13Refuted reports whether a refutation phase (on_violation: emit) left a counterexample naming the invariant.
+func c13Refuted(what string) bool {
+	cex, _ := filepath.Glob(filepath.Join(workDir(), "tlc_violation_*.txt"))
+	for _, f := range cex {
+		if b, err := os.ReadFile(f); err == nil && strings.Contains(string(b), what) {
+			return true
+		}
+	}
+	return false
+}
+
 // c13NamedMethod is the URI a verifiable message has to name: the configured one; "" (any of the eight - the
 // verifiers accept no other) when the configured string is not a URI itself and was tolerated.
 func c13NamedMethod(c *spemitConc) string {
@@ -353,6 +374,7 @@ func TestC13(t *testing.T) {
 	var mu sync.Mutex
 	cover := map[string]int{}
 	env := map[string]int{}
+	paths := map[string]int{}
 	for r := 0; r < reps; r++ {
 		parallel(len(vecs), func(i int) {
 			v := vecs[i]
@@ -372,6 +394,15 @@ func TestC13(t *testing.T) {
 				env[fmt.Sprintf("%s/idpwants=%s/chain=%s/%s", v.Class, v.idpWants(), v.chain(), v.Required.Form)]++
 			}
 			mu.Unlock()
+			if res.BindingDiffers != "" {
+				rep.DriftCase("C13:"+id+":binding", res.BindingDiffers, map[string]any{"observed": res})
+			}
+			if v.Class != "DontCare" {
+				mu.Lock()
+				// counted by what the vector REQUIRES (vacuity control below)
+				paths[fmt.Sprintf("%s/path=%s/offers=%s/mwbinding=%s/%s", v.Class, v.path(), v.offers(), v.mwBinding(), v.Required.Form)]++
+				mu.Unlock()
+			}
 			if len(res.Findings) == 0 {
 				// the model's prediction of outcome and signature form (required variant)
 				if res.Outcome != v.Pred.Req.Outcome || (res.Outcome == "ok" && res.Sigform != v.Pred.Req.Sigform) {
@@ -390,6 +421,28 @@ func TestC13(t *testing.T) {
 	}
 	rep.Extra["c13_cases"] = cover
 	rep.Extra["c13_environment"] = env
+	rep.Extra["c13_paths"] = paths
+	// the emission-path dimension: the middleware must have been run on a signing case and on a refusal case for every
+	// consistent (offers, Middleware.Binding) pair, and the application on an IdP that offers one binding only
+	for _, need := range []string{
+		"path=middleware/offers=both/mwbinding=default/detached", "path=middleware/offers=redirect/mwbinding=default/detached",
+		"path=middleware/offers=post/mwbinding=default/enveloped", "path=middleware/offers=both/mwbinding=redirect/detached",
+		"path=middleware/offers=redirect/mwbinding=redirect/detached", "path=middleware/offers=both/mwbinding=post/enveloped",
+		"path=middleware/offers=post/mwbinding=post/enveloped", "path=direct/offers=redirect/mwbinding=default/detached",
+		"path=direct/offers=post/mwbinding=default/enveloped"} {
+		for _, class := range []string{"MustAccept", "MustReject"} {
+			if paths[class+"/"+need] == 0 {
+				rep.Break("vacuous: no %s case for %s", class, need)
+			}
+		}
+	}
+	// the registered configuration has no seeded deviation; the phase before this one runs TLC with HandsConfiguredBinding
+	// on (spec/SPEmit_C13dev.cfg) and must have produced a counterexample to CarriesSignature
+	if c13Refuted("Invariant CarriesSignature is violated") {
+		rep.Note("model self-test: with HandsConfiguredBinding on (SPEmit_C13dev.cfg) TLC refutes CarriesSignature")
+	} else {
+		rep.Break("TLC did not refute CarriesSignature under the seeded deviation HandsConfiguredBinding (no counterexample in the work directory): the emission-path dimension of the model is vacuous")
+	}
 	// every value of the two environment dimensions must have been run on a signing case of every form
 	for _, w := range []string{"absent", "true", "false"} {
 		for _, form := range []string{"detached", "enveloped"} {
@@ -487,6 +540,33 @@ func c13InstrumentSelfTest() string {
 		}
 		if d := spemitCheckDetached("a=b&"+q, "SAMLRequest", true, kp.Cert.PublicKey); d.ExactErr != nil || d.PrefixLen != 4 {
 			return "signature over own octets not recognised behind an existing query"
+		}
+	}
+	// the middleware path: the middleware samlsp.New builds carries the case's configuration, Middleware.Binding stays ""
+	// unless the case sets it, and the IdP metadata offers what the case says (no code under test is called)
+	for _, o := range []string{"both", "redirect", "post"} {
+		v := &spemitVec{}
+		v.Cfg.Key, v.Cfg.Method, v.Cfg.Offers, v.In.Kind, v.In.Path = "ec384", "x", o, "authn", "middleware"
+		c := &spemitConc{MethodURI: spemitMethodURI["ecdsa-sha384"], EntityIDSet: true, Tracker: "stub", Relay: "r"}
+		s := spemitSP(v, c)
+		m, tr, err := spemitMiddleware(s, v, c)
+		if err != nil {
+			return "middleware: " + err.Error()
+		}
+		if m.Binding != "" || m.ServiceProvider.SignatureMethod != c.MethodURI || m.RequestTracker != samlsp.RequestTracker(tr) {
+			return "middleware does not carry the configuration of the case"
+		}
+		nr, np := 0, 0
+		for _, ep := range m.ServiceProvider.IDPMetadata.IDPSSODescriptors[0].SingleSignOnServices {
+			switch ep.Binding {
+			case saml.HTTPRedirectBinding:
+				nr++
+			case saml.HTTPPostBinding:
+				np++
+			}
+		}
+		if (nr > 0) != (o != "post") || (np > 0) != (o != "redirect") {
+			return "IdP metadata does not offer " + o
 		}
 	}
 	// the environment dimensions: the harness's chain is a real chain, the settings reach the SP value, and a
@@ -640,4 +720,7 @@ func TestC13History(t *testing.T) {
 	// histories of render calls on one MESSAGE value (spec/SPEmitRenderHistory.tla)
 	rep.Rule += "; every sequence of MaxLen render calls (AuthnRequest: Redirect, Post, Element; LogoutRequest: Redirect, Post, Element, Bytes, Deflate; LogoutResponse: Redirect, Post, Element) from spec/SPEmitRenderHistory.tla is replayed on ONE message value built for the POST binding with signing on, for the redirect binding with signing on, and unsigned; every emission is judged like a stateless case of its own binding (enveloped signature still present and verifying, detached signature verifying over the emitted octets)"
 	c13RenderHistories(t, rep)
+	// histories over TWO message values of one ServiceProvider (spec/SPEmitPairHistory.tla)
+	rep.Rule += "; every history of spec/SPEmitPairHistory.tla over TWO message values of one ServiceProvider (A made signed - AuthnRequest for POST, LogoutRequest, LogoutResponse -, B made, in either order; then MaxLen steps, each a write through one pointer B holds - Issuer, NameIDPolicy, NameIDPolicy.AllowCreate, NameIDPolicy.Format, NameID, and the SP's own ForceAuthn / RequestedAuthnContext pointers - or a render call on A) is replayed on two real values; every emission of A is judged like a stateless case of its binding (after a write to a cell of the SP's own configuration the emission is left open and the model's prediction compared as drift)"
+	c13PairHistories(t, rep)
 }
